@@ -75,7 +75,7 @@ func c9MetGen(r *h.Rng) *c9MetCase {
 		}
 		return " " + h.Pick(r, []string{"==", "!=", ">", ">=", "<", "<="}) + " " + h.Pick(r, []string{"0", "1", "2", "0.5", "3", "2.5", "10"})
 	}
-	dur := h.Pick(r, []string{"1s", "2s", "5s", "7s", "15s", "30s", "1m", "1500ms"})
+	dur := h.Pick(r, []string{"1s", "2s", "5s", "7s", "15s", "30s", "1m", "1500ms", "1500us", "2500us"})
 	unwrap := r.Chance(55)
 	var fn, uw, rgrp string
 	kind := ""
@@ -101,7 +101,11 @@ func c9MetGen(r *h.Rng) *c9MetCase {
 		g := grouping()
 		acmp := cmp()
 		pos := r.Bool()
+		ungrouped := r.Chance(30) // `sum(rate(…))`: one series with the empty label set (C08 `vector_agg_ungrouped`)
 		wrap := func(inner string) string {
+			if ungrouped {
+				return agg + " (" + inner + ")" + acmp
+			}
 			if pos {
 				return agg + " " + g + " (" + inner + ")" + acmp
 			}
@@ -109,6 +113,11 @@ func c9MetGen(r *h.Rng) *c9MetCase {
 		}
 		whole, inproc = wrap(whole), wrap(inproc)
 		kind += ",agg:" + agg
+		if ungrouped {
+			kind += ",agg-ungrouped"
+		} else {
+			kind += ",agg-grouped"
+		}
 	}
 	if rcmp != "" {
 		kind += ",cmp"
@@ -282,12 +291,34 @@ func c9EnginesMetric(r *h.Result, rng *h.Rng, n int, fixed []*c9MetCase) error {
 	r.Stream("engines-metric: whole metric query in ClickHouse (real statement = C08 model plan byte for byte, Sql.evalSelA) → real matrix post-processors, vs the selector's log rows (real statement, Sql.evalSelX) → REAL internal_planner (unwrap, by/without, range aggregation, comparison, vector aggregation) → the same post-processors")
 	var cases []*c9MetCase
 	cases = append(cases, fixed...)
+	if n >= 300 {
+		// directed cases: every class a cross-engine theorem covers (Read.engineClass) gets cases whatever the random draw
+		want := func(pred func(c *c9MetCase) bool) {
+			got := 0
+			for try := 0; try < 4000 && got < 3; try++ {
+				if c := c9MetGen(rng); c != nil && c.Req.Step <= c.Dur && pred(c) {
+					cases = append(cases, c)
+					got++
+				}
+			}
+		}
+		for _, fn := range unwrapFns {
+			fn := fn
+			want(func(c *c9MetCase) bool { return c.Kind == "unwrap:"+fn })
+			want(func(c *c9MetCase) bool { return c.Kind == "unwrap:"+fn+",range-grouping" })
+		}
+		for _, fn := range aggFns {
+			fn := fn
+			want(func(c *c9MetCase) bool { return strings.Contains(c.Kind, ",agg:"+fn+",agg-ungrouped") })
+			want(func(c *c9MetCase) bool { return strings.Contains(c.Kind, ",agg:"+fn+",agg-grouped") })
+		}
+	}
 	for i := 0; i < n; i++ {
 		if c := c9MetGen(rng); c != nil {
 			cases = append(cases, c)
 		}
 	}
-	var ops, textOps, impl []string
+	var ops, textOps, impl, classOps []string
 	var kept []*c9MetCase
 	for _, c := range cases {
 		script, err := logql_parser.Parse(c.Whole)
@@ -307,6 +338,7 @@ func c9EnginesMetric(r *h.Result, rng *h.Rng, n int, fixed []*c9MetCase) error {
 		}
 		ops = append(ops, "c09matrix "+c.W.ser()+" "+ser+" "+c.DB.ser())
 		textOps = append(textOps, "c08plan "+c.W.ser()+" "+ser)
+		classOps = append(classOps, "c09class "+c.W.ser()+" "+ser)
 		impl = append(impl, h.Hex([]byte(sqlText)))
 		kept = append(kept, c)
 	}
@@ -317,8 +349,14 @@ func c9EnginesMetric(r *h.Result, rng *h.Rng, n int, fixed []*c9MetCase) error {
 	if err != nil {
 		return err
 	}
+	// the class of every case, by the theorems' own predicates (Read.engineClass)
+	classes, err := h.Model(classOps)
+	if err != nil {
+		return err
+	}
 	var runs []c9Case
 	var owners []*c9MetCase
+	var ownerClass []string
 	var dbg [][2]string
 	for i, c := range kept {
 		a := ans[i]
@@ -367,6 +405,7 @@ func c9EnginesMetric(r *h.Result, rng *h.Rng, n int, fixed []*c9MetCase) error {
 		runs = append(runs, c9Case{Query: c.InProc, Mode: "internal-post", From: c.Req.From, To: c.Req.To, Step: c.Req.Step, Asc: c.Req.Asc, Batches: c9EngBatches(rng, rows)})
 		runs = append(runs, c9Case{Query: c.Whole, Mode: "post", From: c.Req.From, To: c.Req.To, Step: c.Req.Step, Asc: c.Req.Asc, Batches: [][]c9Entry{flat}})
 		owners = append(owners, c)
+		ownerClass = append(ownerClass, classes[i])
 		dbg = append(dbg, [2]string{mtx, logRows})
 	}
 	outs, err := c9RunChild(runs)
@@ -376,6 +415,7 @@ func c9EnginesMetric(r *h.Result, rng *h.Rng, n int, fixed []*c9MetCase) error {
 	if len(outs) != len(runs) {
 		return fmt.Errorf("engines-metric: child answered %d of %d cases", len(outs), len(runs))
 	}
+	classSeen, classNonEmpty := map[string]int{}, map[string]int{}
 	for i, c := range owners {
 		ip, ch := outs[2*i], outs[2*i+1]
 		if ip.Skip != "" || ch.Skip != "" {
@@ -390,6 +430,14 @@ func c9EnginesMetric(r *h.Result, rng *h.Rng, n int, fixed []*c9MetCase) error {
 		}
 		if c.Req.Step > c.Dur {
 			r.Count("engines-metric:step>range")
+		}
+		r.Count("engines-metric:class:" + ownerClass[i])
+		if len(b) > 0 {
+			r.Count("engines-metric:class-nonempty:" + ownerClass[i])
+		}
+		classSeen[ownerClass[i]]++
+		if len(b) > 0 {
+			classNonEmpty[strings.Join(strings.Split(ownerClass[i], ":")[:2], ":")]++
 		}
 		if len(b) > 0 {
 			r.Count("engines-metric:nonempty-result")
@@ -410,13 +458,37 @@ func c9EnginesMetric(r *h.Result, rng *h.Rng, n int, fixed []*c9MetCase) error {
 			if c.Req.Step > c.Dur {
 				key = "C09/engines-metric/step-above-range"
 			}
+			if strings.HasPrefix(ownerClass[i], "proved") {
+				r.Count("engines-metric:proved-class-differs:" + ownerClass[i])
+			}
 			r.Violate(key,
 				fmt.Sprintf("the engines disagree on %s (range %d ns, step %d ns, window [%d, %d)): %s — in process over ClickHouse's log rows: %.300s; ClickHouse alone: %.300s",
 					c.Whole, c.Dur, c.Req.Step, c.Req.From, c.Req.To, diff, ip.Canon, ch.Canon),
 				map[string]any{"stream": "engines-metric", "metric": c, "clickhouse_matrix": dbg[i][0], "clickhouse_log_rows": dbg[i][1]})
 		}
 		if i%29 == 0 {
-			r.Sample(map[string]any{"stream": "engines-metric", "query": c.Whole, "in_process": c.InProc, "range_ns": c.Dur, "step_ns": c.Req.Step})
+			r.Sample(map[string]any{"stream": "engines-metric", "query": c.Whole, "in_process": c.InProc, "range_ns": c.Dur, "step_ns": c.Req.Step, "class": ownerClass[i]})
+		}
+	}
+	if n >= 300 {
+		// fail closed: every class a cross-engine theorem covers must have cases, and cases with a non-empty result
+		var need []string
+		need = append(need, "proved:rangeAgg", "proved:rangeAgg:cmp", "finding:step-above-range")
+		for _, fn := range unwrapFns {
+			need = append(need, "proved:unwrapAgg:"+fn, "proved:byWithout:"+fn)
+		}
+		for _, fn := range aggFns {
+			need = append(need, "proved-stage:vectorAgg:"+fn, "proved-stage:vectorAgg:"+fn+":ungrouped")
+		}
+		for _, k := range need {
+			if classSeen[k] == 0 {
+				return fmt.Errorf("engines-metric: no case of the class %s (a class a theorem of C09 covers got no case: generator or class predicate changed)", k)
+			}
+		}
+		for _, k := range []string{"proved:rangeAgg", "proved:unwrapAgg", "proved:byWithout", "proved-stage:vectorAgg"} {
+			if classNonEmpty[k] == 0 {
+				return fmt.Errorf("engines-metric: no case with a non-empty result in the class %s", k)
+			}
 		}
 	}
 	return nil
